@@ -30,7 +30,7 @@ PROP = dict(
         "types only (no Lean model of the checker; C21 has the model of name lookup)",
     ],
     assumptions=[
-        "ExprKind::TaskBlock is modelled as repaired by D45 (the searches descend into the task body); until that fix lands "
+        "ExprKind::TaskBlock is modelled as repaired by D45 (5b44d4b: the searches descend into the task body); if the start-up probe ever fails again "
         "task blocks stay out of the generated stream (the start-up probe reports it)",
         "hover inside match-arm patterns and on `.Variant` callees is not constrained (the implementation reports no type there)",
     ],
